@@ -19,6 +19,14 @@ RulesSS == {PR("a", s, TRUE, d) : s \in {"s1", "s2"}, d \in BOOLEAN}
 RulesMix == {PR("a", "s1", TRUE, FALSE), PR("a", "s2", FALSE, TRUE), PR("b", "s2", TRUE, TRUE),
              IR("t1", "s1", FALSE), IR("t1", "s3", TRUE), IR(None, "s2", FALSE)}
 
+\* rejected add_rule calls: every reason x two sinks x do_start_stop_run on / off
+BR(why, sink, dss) == [why |-> why, sink |-> sink, dss |-> dss]
+BadAll == {BR(w, s, d) : w \in {"slash", "unknown-policy", "bad-keyword"}, s \in {"s1", "s2"}, d \in BOOLEAN}
+BadNone == {}
+\* valid rules to combine with rejected calls (same sink retried, other sink, with / without start-stop)
+RulesRej == {PR("a", "s1", TRUE, TRUE), PR("a", "s1", FALSE, FALSE), PR("b", "s2", FALSE, TRUE), IR("t1", "s1", TRUE)}
+EventsRej == {E(<<>>, <<"a", "x">>, "t1", "plain"), E(<<>>, <<>>, "t3", "plain")}
+
 \* everything: 2 prefixes x 3 sinks x consume x dss + 3 ids (incl. None) x 3 sinks x dss
 RulesAll == {PR(k, s, c, d) : k \in {"a", "b"}, s \in {"s1", "s2", "s3"}, c \in BOOLEAN, d \in BOOLEAN}
             \cup {IR(k, s, d) : k \in {"t1", "t2", None}, s \in {"s1", "s2", "s3"}, d \in BOOLEAN}
